@@ -16,7 +16,7 @@ ANCHORS = [
 ]
 
 META = {
-    'totals': (240, 8000),
+    'totals': (240, 16000),
     'rule': ('generated datasets of all conventions (in memory, or written to netCDF and reopened) with float / float32 / int32 / '
              'int16+_FillValue / int32+missing_value variables on every grid kind and on no grid, spatial dimensions in any position; '
              'meshes cycling through all 16 subsets of optional connectivity; clip geometries of every class x buffer 0..2; masks applied '
